@@ -58,6 +58,7 @@ type HarnessCfg struct {
 	YieldOnUnlock   bool     `json:"yield_on_unlock"`
 	Tier            int      `json:"tier"`
 	MakeEnumLimit   int      `json:"make_enum_limit"`
+	StrictSchedBound bool    `json:"strict_sched_bound"`
 }
 
 func (c *HarnessCfg) defaults() {
